@@ -43,3 +43,15 @@ func (o Otto) VerifScopeDepth() int {
 func (o Otto) VerifLabelCount() int {
 	return len(o.runtime.labels)
 }
+
+// VerifFunctionDepth returns the number of function execution contexts
+// (script or native) currently on the runtime's scope chain.
+func (o Otto) VerifFunctionDepth() int {
+	n := 0
+	for sc := o.runtime.scope; sc != nil; sc = sc.outer {
+		if sc.frame.fn != nil {
+			n++
+		}
+	}
+	return n
+}
